@@ -151,6 +151,24 @@ class RecForecaster(_OptionalForecastingHorizonMixin, _SktimeForecaster):
         return pd.Series(vals, index=idx)
 
 
+class RecForecasterLazy(RecForecaster):
+    """recording forecaster whose ``update`` does NOT refit by default (like the tuners and the
+    online ensemble) and whose forecast is the mean of the data of its last parameter fit:
+    a caller that forces ``update_params=True`` changes the forecasts"""
+
+    def update(self, y, X=None, update_params=False):
+        return super(RecForecasterLazy, self).update(y, X, update_params=update_params)
+
+    def _predict(self, fh, X=None, return_pred_int=False, alpha=None):
+        if return_pred_int:
+            raise NotImplementedError()
+        idx = fh.to_absolute(self.cutoff).to_pandas()
+        rel = fh.to_relative(self.cutoff).to_pandas()
+        LOG.append((self.tag, "predict", list(idx), self.cutoff, None))
+        m = float(np.mean(self.fitted_on_[1]))
+        return pd.Series([m + 0.001 * int(r) + self.offset for r in rel], index=idx)
+
+
 class RecTransformer(_SeriesToSeriesTransformer):
     """invertible affine series transformer z -> a*z + b that logs what it is given"""
 
